@@ -19,6 +19,7 @@ EXPLANATION = (
     "C12-R5 the implicit-classmethod set equals {__init_subclass__, __class_getitem__} (data model "
     "3.3.3.1, 3.3.5), only for methods; C06-R6 instance for attributes defined under version guards; "
     "C06-R4 instance for the class namespace (owner of a free name read by a class body)."
+    ' C12-R7 zero-argument super() in converter-built frames; C12-R8 class-private names; C12-R9 class creation protocol; shared: C06-R3 (class namespace), C06-R5 (lazy class-dict fallback), C06-R11 (comprehension tables in class bodies), C07-R2 (ClassDef order).'
 )
 ASSUMPTIONS = ["metaclass derivation, __prepare__, __set_name__, MRO are run-time behaviour of type(...) (not decided)"]
 
